@@ -37,6 +37,8 @@ class _SimSelector:
         if timeout is None:
             raise SimDeadlock("event loop has nothing to run and nothing scheduled")
         if timeout > 0:
+            if loop.on_idle is not None:
+                loop.on_idle()
             # jump exactly to the next timer (avoids float drift of now+timeout)
             sched = loop._scheduled
             if sched:
@@ -60,6 +62,7 @@ class SimLoop(asyncio.base_events.BaseEventLoop):
         self._selector = _SimSelector(self)
         self._clock_resolution = 1e-9
         self.net = None  # set by worlds that simulate TCP
+        self.on_idle = None  # called when everything runnable has run and time is about to advance
         self.exceptions: list[dict] = []  # what reached the loop exception handler
         self.set_exception_handler(self._on_exception)
 
